@@ -8,3 +8,5 @@
 #include <OpenVolumeMesh/Mesh/TetrahedralMeshIterators.cc>
 #include <OpenVolumeMesh/Mesh/HexahedralMeshTopologyKernel.cc>
 #include <OpenVolumeMesh/Mesh/HexahedralMeshIterators.cc>
+#include <OpenVolumeMesh/Unstable/Topology/TetTopology.cc>
+#include <OpenVolumeMesh/Unstable/Topology/TriangleTopology.cc>
